@@ -156,6 +156,7 @@ Qed.
 Section Trace.
 Variable apply : sroot -> block -> option sroot.
 Variable orphan_cap : nat.
+Variable f27 : bool.
 Variable spent : sroot -> txid -> bool.
 Hypothesis apply_fresh : forall r b r', apply r b = Some r' ->
   NoDup (txs b) /\ forall t, In t (txs b) -> spent r t = false.
@@ -288,18 +289,18 @@ Qed.
 
 (** One arrival either extends the main chain or (after storing side blocks) reorganises it. *)
 Theorem add_block_trace n b :
-  Inv n -> U b -> no b <> 0 ->
-  let n' := fst (add_block apply true orphan_cap n b) in
+  Inv n -> U b -> (f27 = true \/ no b <> 0) ->
+  let n' := fst (add_block apply true f27 orphan_cap n b) in
   Ext n n' \/ (exists n1, Inv n1 /\ Ext n n1 /\ best n1 = best n /\ Reorged n1 n').
 Proof.
   intros I Ub Hn0 n'. subst n'. unfold add_block.
   destruct (mem (hash_field b) (bad n)); [left; apply Ext_refl|].
   destruct (get_block (dur n) (hash_field b)); [left; apply Ext_refl|].
-  assert (Hint : let m := fst (fst (add_block_internal apply true orphan_cap n b)) in
+  assert (Hint : let m := fst (fst (add_block_internal apply true f27 orphan_cap n b)) in
                  Ext n m \/ (exists n1, Inv n1 /\ Ext n n1 /\ best n1 = best n /\ Reorged n1 m)).
   { unfold add_block_internal.
     destruct (get_block (dur n) (prev b)) as [p|] eqn:Ep.
-    - destruct (is_main_chain n b) as [main|] eqn:Em; [|left; apply Ext_refl].
+    - destruct (is_main_chain f27 n b) as [main|] eqn:Em; [|left; apply Ext_refl].
       destruct (run_chain apply (S (length (orphans n))) main n b b) as [[n1 ok] last] eqn:RC.
       assert (Hm : main = true -> prev b = hash_field (best n) /\ no b = no (best n) + 1).
       { intros ->. eapply is_main_chain_true; eauto. }
@@ -316,7 +317,7 @@ Proof.
       + left. destruct e; simpl; eapply Ext_trans; eauto.
       + right. exists n1. destruct e; simpl; auto.
     - simpl. left. apply Ext_same_fields; auto. exists [EvSyncStart (no b)]. auto. }
-  destruct (add_block_internal apply true orphan_cap n b) as [[n1 r] c].
+  destruct (add_block_internal apply true f27 orphan_cap n b) as [[n1 r] c].
   simpl in Hint.
   assert (Hbad : forall l, Ext n n1 \/ (exists n0, Inv n0 /\ Ext n n0 /\ best n0 = best n /\ Reorged n0 n1) ->
             Ext n (set_bad n1 l) \/ (exists n0, Inv n0 /\ Ext n n0 /\ best n0 = best n /\ Reorged n0 (set_bad n1 l))).
@@ -332,6 +333,7 @@ Definition confirmed (n : node) (t : txid) : Prop :=
 Section Final.
 Variable apply : sroot -> block -> option sroot.
 Variable orphan_cap : nat.
+Variable f27 : bool.
 Variable spent : sroot -> txid -> bool.
 Hypothesis apply_fresh : forall r b r', apply r b = Some r' ->
   NoDup (txs b) /\ forall t, In t (txs b) -> spent r t = false.
@@ -382,22 +384,22 @@ Qed.
 (** no_displace_equal_or_shorter: an arrival changes the best block only to a strictly higher
     one (an equal or shorter branch never displaces the incumbent; ties keep it). *)
 Theorem no_displace_equal_or_shorter n b :
-  Inv n -> U b -> no b <> 0 ->
-  let n' := fst (add_block apply true orphan_cap n b) in
+  Inv n -> U b -> (f27 = true \/ no b <> 0) ->
+  let n' := fst (add_block apply true f27 orphan_cap n b) in
   best n' = best n \/ no (best n) < no (best n').
 Proof.
-  intros I Ub Hn0 n'. subst n'. destruct (add_block_trace apply orphan_cap spent apply_fresh apply_spent U U_inj g n b I Ub Hn0)
+  intros I Ub Hn0 n'. subst n'. destruct (add_block_trace apply orphan_cap f27 spent apply_fresh apply_spent U U_inj g n b I Ub Hn0)
     as [(A & _)|(n1 & I1 & E1 & Hb1 & (st & news & olds & _ & _ & Hlt & _))]; auto.
   right. rewrite <- Hb1. exact Hlt.
 Qed.
 
 (** below_lib_never_displaces: no arrival changes the main chain at or below the LIB. *)
 Theorem below_lib_never_displaces n b :
-  Inv n -> U b -> no b <> 0 ->
-  let n' := fst (add_block apply true orphan_cap n b) in
+  Inv n -> U b -> (f27 = true \/ no b <> 0) ->
+  let n' := fst (add_block apply true f27 orphan_cap n b) in
   forall k, k <= lib n -> k <= no (best n) -> mainb (dur n') k = mainb (dur n) k.
 Proof.
-  intros I Ub Hn0 n' k Hk Hkb. subst n'. destruct (add_block_trace apply orphan_cap spent apply_fresh apply_spent U U_inj g n b I Ub Hn0)
+  intros I Ub Hn0 n' k Hk Hkb. subst n'. destruct (add_block_trace apply orphan_cap f27 spent apply_fresh apply_spent U U_inj g n b I Ub Hn0)
     as [(_ & A & _)|(n1 & I1 & (_ & E1 & _ & El) & Hb1 & (st & news & olds & _ & Hlib & _ & Hpre & _))]; auto.
   rewrite Hpre by lia. apply E1. exact Hkb.
 Qed.
@@ -406,12 +408,12 @@ Qed.
     confirmed (on the main chain) before it and are not confirmed after it, i.e.
     txs(old branch) \ txs(new branch); none unless the main chain is reorganised. *)
 Theorem returned_txs n b :
-  Inv n -> U b -> no b <> 0 ->
-  let n' := fst (add_block apply true orphan_cap n b) in
+  Inv n -> U b -> (f27 = true \/ no b <> 0) ->
+  let n' := fst (add_block apply true f27 orphan_cap n b) in
   exists new, evs n' = new ++ evs n /\
     forall t, In t (puts_of new) <-> (confirmed n t /\ ~ confirmed n' t).
 Proof.
-  intros I Ub Hn0 n'. subst n'. destruct (add_block_trace apply orphan_cap spent apply_fresh apply_spent U U_inj g n b I Ub Hn0)
+  intros I Ub Hn0 n'. subst n'. destruct (add_block_trace apply orphan_cap f27 spent apply_fresh apply_spent U U_inj g n b I Ub Hn0)
     as [E|(n1 & I1 & E1 & Hb1 & Rg)].
   - pose proof E as (_ & _ & (new & Ev & Pu) & _). exists new. split; auto. intros t. rewrite Pu. simpl. split; [contradiction|].
     intros (C & NC). apply NC. eapply Ext_confirmed; eauto.
@@ -432,6 +434,7 @@ End Final.
 Section Longest.
 Variable apply : sroot -> block -> option sroot.
 Variable orphan_cap : nat.
+Variable f27 : bool.
 Variable spent : sroot -> txid -> bool.
 Hypothesis apply_fresh : forall r b r', apply r b = Some r' ->
   NoDup (txs b) /\ forall t, In t (txs b) -> spent r t = false.
@@ -456,7 +459,7 @@ Definition Longest (n : node) : Prop := forall t, avail n t -> no t <= no (best 
     above the LIB and strictly below the tip, and no parked orphan is waiting for it, the node
     switches to it and its state becomes that branch's state. *)
 Theorem best_is_longest_available_partial n b f L :
-  Inv n -> U b -> no b <> 0 ->
+  Inv n -> U b -> (f27 = true \/ no b <> 0) ->
   mem (hash_field b) (bad n) = false -> get_block (dur n) (hash_field b) = None ->
   find_orphan (orphans n) (hash_field b) = None ->
   mainb (dur n) (no f) = Some f -> no f < no (best n) -> lib n <= no f ->
@@ -464,7 +467,7 @@ Theorem best_is_longest_available_partial n b f L :
   (forall c, In c L -> get_block (dur n) (hash_field c) = Some c) ->
   (forall c m, In c L -> no c <= no (best n) -> mainb (dur n) (no c) = Some m -> hash_field c <> hash_field m) ->
   valid_chain apply (root f) (L ++ [b]) -> no (best n) < no b ->
-  let r := add_block apply true orphan_cap n b in
+  let r := add_block apply true f27 orphan_cap n b in
   snd r = ROk /\ best (fst r) = b /\ sdb_root (fst r) = root b /\ Inv (fst r).
 Proof.
   intros I Ub Hn0 Hbad Hns Horph Hf Hflt Hlib Hl Hst Hnm Hv Htop r. subst r.
@@ -503,11 +506,11 @@ Proof.
       assert (p = c). { destruct (inv_stored_U _ _ _ _ _ _ _ I Hp) as (Up & _).
         destruct (inv_stored_U _ _ _ _ _ _ _ I (Hst c Hc)) as (Uc & _). apply U_inj; auto. congruence. }
       subst p. exact Hnbc. }
-  assert (Emain : is_main_chain n b = Some false).
+  assert (Emain : is_main_chain f27 n b = Some false).
   { unfold is_main_chain. rewrite (best_hash _ _ _ _ _ I).
-    destruct ((0 <? no b) && negb (no b =? no (best n) + 1)) eqn:E; auto.
+    destruct ((f27 || (0 <? no b)) && negb (no b =? no (best n) + 1)) eqn:E; auto.
     apply andb_false_iff in E. destruct E as [E|E].
-    - apply N.ltb_ge in E. lia.
+    - apply orb_false_iff in E. destruct E as (_ & E). apply N.ltb_ge in E. lia.
     - apply negb_false_iff in E. apply N.eqb_eq in E.
       assert (prev b =? hash_field (best n) = false).
       { apply N.eqb_neq. rewrite <- Hph. apply Hpne. lia. }
